@@ -24,9 +24,6 @@ from dashlive.server.options.player_options import ShakaVersion, DashjsVersion
 from dashlive.server.options.types import OptionUsage
 
 from .base import HTMLHandlerBase
-from .decorators import (
-    current_stream,
-)
 from .manifest_context import ManifestContext
 from .navbar import NavBarItem
 from .utils import add_allowed_origins, is_https_request
@@ -203,7 +200,7 @@ class VideoPlayer(HTMLHandlerBase):
             title = stream_model.title
             if stream_model.timing_reference is None:
                 flask.flash(
-                    f'The timing reference needs to be set for stream "{current_stream.title}"',
+                    f'The timing reference needs to be set for stream "{stream_model.title}"',
                     "error",
                 )
                 return flask.redirect(flask.url_for("home"))
